@@ -15,4 +15,5 @@ fn despawn_reader_only_while_reacting()
     match ev.get() { Ok(e) => assert!(reacting && e == source, "C03/C04: despawn reader"), Err(_) => assert!(!reacting, "C03: the reacting run reads its despawned entity") }
     assert!(ev.is_empty() == !reacting);
     std::mem::forget(tracker);
+    kani::cover!(true, "end of harness reached");
 }
